@@ -492,7 +492,9 @@ pub fn run(args: &Args) {
     rep.count("recorded_preallocations", fallocs);
     rep.count("commits_in_workload", rec.obs.len() as u64);
     for c in ["recorded_writes", "recorded_syncs", "recorded_preallocations"] {
-        rep.require_nonzero(c);
+        if rep.violations().is_empty() {
+            rep.require_nonzero(c);
+        }
     }
     if let Some(p) = &args.replay {
         replay(args, &rec, scratch, p);
@@ -628,7 +630,9 @@ pub fn run(args: &Args) {
     rep.count("recovered_commit_in_progress", *outcomes.get("recovered_commit_in_progress").unwrap_or(&0));
     rep.count("error_before_first_commit", *outcomes.get("error_before_first_commit").unwrap_or(&0));
     for c in ["torn_write_patterns", "recovered_last_returned_commit", "recovered_commit_in_progress", "error_before_first_commit", "subset_patterns_exhaustive"] {
-        rep.require_nonzero(c);
+        if rep.violations().is_empty() {
+            rep.require_nonzero(c);
+        }
     }
     rep.assume("a completed fsync/fdatasync makes every earlier write, the file size and the file's existence durable");
     rep.assume("writes issued after a completed sync cannot reach the disk before that sync's writes (no reordering across a completed sync); unsynced writes persist independently of each other");
